@@ -3,7 +3,7 @@
 use super::MetricItemRetriever;
 use crate::{utils::AsAny, Error, Result};
 use enum_map::Enum;
-use lazy_static::lazy_static;
+use crate::vsync::lazy_static;
 use std::any::Any;
 use std::fmt;
 use std::sync::Arc;
